@@ -199,4 +199,48 @@ theorem slice_one_neg_one (x : α) (t : List α) :
   | nil => simp
   | cons y t' => simp [List.take_succ_cons]
 
+/-! ### `s[-1:]` and `s[1:-1]` -/
+
+/-- `s[-1:]`: the last element as a list, or the empty list -/
+def lastAsList (s : List α) : List α :=
+  match s.getLast? with
+  | some c => [c]
+  | none => []
+
+theorem slice_neg_one_none (s : List α) : slice s (some (-1)) none = lastAsList s := by
+  unfold lastAsList
+  cases s with
+  | nil => simp [slice, clamp]
+  | cons x t =>
+    have hl : (x :: t).getLast? = some ((x :: t).getLast (by simp)) := List.getLast?_eq_some_getLast (by simp)
+    rw [hl]
+    simp only [slice, clamp]
+    have h1 : ((-1 : Int) < 0) := by omega
+    have h3 : ((-1 : Int) + ((x :: t).length : Nat)).toNat = t.length := by simp; omega
+    simp only [h1, if_true, h3, List.take_length]
+    rw [List.getLast_eq_getElem]
+    simp
+    rw [List.drop_eq_getElem_cons (by simp)]
+    simp
+
+theorem slice_one_neg_one' (s : List α) : slice s (some 1) (some (-1)) = (s.drop 1).dropLast := by
+  cases s with
+  | nil => simp [slice, clamp]
+  | cons x t => simpa using slice_one_neg_one x t
+
+theorem quoted_test (g : List Char) :
+    ((g.take 1 == lastAsList g) && (lastAsList g == ['"']))
+    = (g.head? == some '"' && g.getLast? == some '"') := by
+  unfold lastAsList
+  cases g with
+  | nil => simp
+  | cons x t =>
+    have hl : (x :: t).getLast? = some ((x :: t).getLast (by simp)) := List.getLast?_eq_some_getLast (by simp)
+    rw [hl]
+    generalize (x :: t).getLast (by simp) = z
+    by_cases hz : z = '"'
+    · subst hz; simp
+    · have hzb : (z == '"') = false := by simpa using hz
+      simp [hz, hzb]
+
 end Wz.Pre
